@@ -273,9 +273,11 @@ class ExprMixin(object):
         continue
       s0, v0 = g[0]
       guards = []
+      axioms = []
       for s, v in g:
-        d = s.pc[base:]
+        d, ax = s.split_delta(base)
         guards.append(z3.And(*d) if d else z3.BoolVal(True))
+        axioms.extend(a for a in ax if all(a.get_id() != b.get_id() for b in axioms))
       if isinstance(v0, Raised):
         merged_v = v0
       else:
@@ -283,7 +285,9 @@ class ExprMixin(object):
         if merged_v is None:
           out.extend(g)
           continue
-      s0.pc = s0.pc[:base] + [z3.simplify(z3.Or(*guards))]
+      s0.pc = s0.pc[:base] + axioms + [z3.simplify(z3.Or(*guards))]
+      for a in axioms:
+        s0.ax.add(a.get_id())
       # tag knowledge after the join: a declared tag set (tuple) survives; a resolution (str) survives only if every
       # merged path agrees on it, otherwise it falls back to the declared set
       keep = {}
